@@ -29,8 +29,8 @@ type AmtCase struct {
 	Balance    string    `json:"balance"` // sender's hub balance before a send
 	DstChain   int       `json:"dst_chain"`
 	SameAddr   int       `json:"same_addr,omitempty"` // 1: the two EVM chains list the token under one contract address, 2: same address, other spelling
-	FeeDenom   int       `json:"fee_denom"`  // 1 = fee in another denom (stateless reject), 2 = unknown denom for both
-	HolderWho  int       `json:"holder_who"` // 0 none, 1 sender, 2 recipient, 3 both
+	FeeDenom   int       `json:"fee_denom"`           // 1 = fee in another denom (stateless reject), 2 = unknown denom for both
+	HolderWho  int       `json:"holder_who"`          // 0 none, 1 sender, 2 recipient, 3 both
 	HolderVal  [2]string `json:"holder_val"`
 	HolderForm int       `json:"holder_form"` // 0 as used in lookups, 1 upper-case hex, 2 with 0x prefix
 	Recipient  int       `json:"recipient"`
